@@ -152,46 +152,107 @@ def run(ctx, repo):
                 for rule, msg, node in res:
                     ctx.finding('R6', '%s::%s.%s::memo %s' % (AGE, cname, f.name, rule), AGE, node.lineno, msg,
                                 'the same event graded for one gender, then for the other, on the shared grader')
-    # ---- R4
+    # ---- R4 grade roles, decided per tabulated event
+    from ..pats import Pats
+    from .. import rx as _rx
+    P = Pats(repo)
     cg = mod.func('AgeGrader.calculate_age_grade')
     env = resolve_locals(cg)
-    kind_if = [n for n in ast.walk(cg) if isinstance(n, ast.If) and isinstance(n.test, ast.Compare) and isinstance(n.test.ops[0], ast.In)
-               and ast.unparse(n.test.left) == 'kind']
-    if len(kind_if) != 1:
-        raise AnalysisError('calculate_age_grade: kind dispatch not found')
-    ki = kind_if[0]
-    kinds = sorted(x.value for x in ki.test.comparators[0].elts if isinstance(x, ast.Constant))
-    if kinds == ['road', 'track']:
-        ctx.ok('R4', 'timed kinds = road, track')
-    else:
-        ctx.finding('R4', '%s::AgeGrader.calculate_age_grade::timed kinds' % AGE, AGE, ki.lineno,
-                    'timed kinds are %s, not road and track' % kinds)
-
-    def ratio(stmts):
-        for st in stmts:
-            if isinstance(st, ast.Assign) and isinstance(st.value, ast.BinOp) and isinstance(st.value.op, ast.Div):
-                return subst(st.value.left, env), subst(st.value.right, env), st
-        return None, None, None
 
     def is_standard(e):
         t = ast.unparse(e)
-        return 'world_best(' in t and 'calculate_factor(' in t and isinstance(e, ast.BinOp) and isinstance(e.op, ast.Div) \
-            and 'calculate_factor(' in ast.unparse(e.right) and 'world_best(' in ast.unparse(e.left) and 'calculate_factor(' not in ast.unparse(e.left)
+        return isinstance(e, ast.BinOp) and isinstance(e.op, ast.Div) and 'calculate_factor(' in ast.unparse(e.right) \
+            and 'world_best(' in ast.unparse(e.left) and 'calculate_factor(' not in ast.unparse(e.left)
 
     def is_perf(e):
         return 'parse_hms(' in ast.unparse(e) and 'world_best' not in ast.unparse(e)
-    num_t, den_t, st_t = ratio(ki.body)
-    num_f, den_f, st_f = ratio(ki.orelse)
-    if num_t is not None and is_standard(num_t) and is_perf(den_t):
-        ctx.ok('R4', 'timed: (best / factor) / performance')
+
+    def formula(stmts):
+        for st in stmts:
+            if isinstance(st, ast.Assign) and isinstance(st.value, ast.BinOp) and isinstance(st.value.op, ast.Div):
+                num, den = subst(st.value.left, env), subst(st.value.right, env)
+                if is_standard(num) and is_perf(den):
+                    return 'timed', st
+                if is_perf(num) and is_standard(den):
+                    return 'field', st
+                return 'other', st
+        return None, None
+    sel = None
+    for n in ast.walk(cg):
+        if isinstance(n, ast.If) and n.orelse:
+            fb, _ = formula(n.body)
+            fo, _ = formula(n.orelse)
+            if fb and fo:
+                sel = (n, fb, fo)
+    if sel is None:
+        raise AnalysisError('calculate_age_grade: no branch selecting between the two grade formulas found')
+    node, fb, fo = sel
+    if {fb, fo} != {'timed', 'field'}:
+        ctx.finding('R4', '%s::AgeGrader.calculate_age_grade::grade formulas' % AGE, AGE, node.lineno,
+                    'the two grade formulas are %s / %s; they must be (open best / factor) / time for timed events and mark / (open best / '
+                    'factor) for field events' % (fb, fo))
     else:
-        ctx.finding('R4', '%s::AgeGrader.calculate_age_grade::timed grade' % AGE, AGE, ki.lineno,
-                    'the timed grade is %s; it must be the age standard (open best / factor) divided by the time' % (unparse(st_t) if st_t else '?'))
-    if num_f is not None and is_perf(num_f) and is_standard(den_f):
-        ctx.ok('R4', 'field: performance / (best / factor)')
-    else:
-        ctx.finding('R4', '%s::AgeGrader.calculate_age_grade::field grade' % AGE, AGE, ki.lineno,
-                    'the field grade is %s; it must be the mark divided by the age standard (open best / factor)' % (unparse(st_f) if st_f else '?'))
+        # classifier used by the test: ordered (name, pattern) pairs of event_code_to_kind
+        kinds = []
+        ek = mod.func('AgeGrader.event_code_to_kind')
+        for n in ast.walk(ek):
+            if isinstance(n, ast.For) and isinstance(n.iter, (ast.Tuple, ast.List)):
+                for tup in n.iter.elts:
+                    if isinstance(tup, ast.Tuple) and len(tup.elts) == 2 and isinstance(tup.elts[0], ast.Constant) and isinstance(tup.elts[1], ast.Name):
+                        kinds.append((tup.elts[0].value, tup.elts[1].id))
+        evp = cg.args.args[3].arg if len(cg.args.args) > 3 else 'event'
+
+        def kind_of(ev):
+            for nm, pat in kinds:
+                if _rx.accepts(P.dfa(pat), ev):
+                    return nm
+            return None
+
+        def truth(t, ev):
+            if isinstance(t, ast.UnaryOp) and isinstance(t.op, ast.Not):
+                v = truth(t.operand, ev)
+                return None if v is None else not v
+            if isinstance(t, ast.Compare) and len(t.ops) == 1 and isinstance(t.ops[0], (ast.In, ast.NotIn)) and isinstance(t.comparators[0], (ast.List, ast.Tuple, ast.Set)):
+                lhs = subst(t.left, env)
+                if 'event_code_to_kind(' in ast.unparse(lhs):
+                    v = kind_of(ev) in [x.value for x in t.comparators[0].elts if isinstance(x, ast.Constant)]
+                    return v if isinstance(t.ops[0], ast.In) else not v
+            if isinstance(t, ast.Compare) and len(t.ops) == 1 and isinstance(t.ops[0], (ast.Eq, ast.NotEq)) and isinstance(t.comparators[0], ast.Constant):
+                lhs = subst(t.left, env)
+                if 'event_code_to_kind(' in ast.unparse(lhs):
+                    v = kind_of(ev) == t.comparators[0].value
+                    return v if isinstance(t.ops[0], ast.Eq) else not v
+            if isinstance(t, ast.Call) and isinstance(t.func, ast.Attribute) and t.func.attr in ('match', 'search') and isinstance(t.func.value, ast.Name) \
+                    and t.func.value.id in P.parsed and t.args and ast.unparse(t.args[0]) in (evp, evp + '.upper()'):
+                return _rx.accepts(P.dfa(t.func.value.id), ev)
+            if isinstance(t, ast.BoolOp):
+                vs = [truth(x, ev) for x in t.values]
+                if None in vs:
+                    return None
+                return all(vs) if isinstance(t.op, ast.And) else any(vs)
+            return None
+        events = sorted({row[0] for rel, off in TABLES for g in ('m', 'f') for row in repo.json(rel)[g]})
+        FIELD = P.dfa('PAT_FIELD')
+        wrong = []
+        undecided = 0
+        for ev in events:
+            v = truth(node.test, ev)
+            if v is None:
+                undecided += 1
+                continue
+            got = fb if v else fo
+            want = 'field' if _rx.accepts(FIELD, ev) else 'timed'
+            if got != want:
+                wrong.append((ev, got, want))
+        if undecided == len(events):
+            raise AnalysisError('calculate_age_grade: the test %s selecting the grade formula is not understood' % unparse(node.test))
+        if wrong:
+            ctx.finding('R4', '%s::AgeGrader.calculate_age_grade::formula selection' % AGE, AGE, node.lineno,
+                        'the test %s grades %d tabulated events with the wrong formula, e.g. %s is graded as a %s event but is a %s event: a '
+                        'better mark then grades lower' % (unparse(node.test), len(wrong), wrong[0][0], wrong[0][1], wrong[0][2]), [w[0] for w in wrong[:6]])
+        else:
+            ctx.ok('R4', 'every one of the %d tabulated events is graded with the formula of its kind' % len(events))
+    age_clamps(ctx, repo, mod, 'R3')
     # ---- R5 data
     n_cells = 0
     for rel, off in TABLES:
@@ -245,3 +306,41 @@ def run(ctx, repo):
     if not any(f.rule == 'R5' for f in ctx.findings):
         ctx.ok('R5', 'all JSON tables well-formed (%d factor cells)' % n_cells)
     ctx.extra['exhaustive'] = True
+
+
+def age_clamps(ctx, repo, mod, rule):
+    """an upper clamp of the age against a class constant must not cut off columns the tables have"""
+    # ---- age clamps against a class constant: the constant must not cut off columns the tables have
+    clamps = []
+    for cname in ('AgeGrader', 'AthlonsAgeGrader'):
+        cls = mod.cls(cname)
+        consts = {}
+        for base in (mod.cls('AgeGrader'), cls):
+            for st in base.body:
+                if isinstance(st, ast.Assign) and isinstance(st.value, ast.Constant) and isinstance(st.value.value, (int, float)):
+                    for t in st.targets:
+                        if isinstance(t, ast.Name):
+                            consts[t.id] = st.value.value
+        for f in cls.body:
+            if not isinstance(f, ast.FunctionDef):
+                continue
+            for n in ast.walk(f):
+                for a in ast.walk(n) if isinstance(n, (ast.Compare, ast.Call)) else []:
+                    if isinstance(a, ast.Attribute) and isinstance(a.value, ast.Name) and a.value.id == 'self' and a.attr in consts \
+                            and 'age' in {x.id for x in ast.walk(n) if isinstance(x, ast.Name)}:
+                        upper = (isinstance(n, ast.Call) and call_name(n) == 'min') or (isinstance(n, ast.Compare) and isinstance(n.ops[0], (ast.Gt, ast.GtE)))
+                        clamps.append((cname, f.name, a.attr, consts[a.attr], n, upper))
+    lastages = {rel: repo.json(rel)['ages'][-1] for rel, off in TABLES}
+    seenc = set()
+    for cname, fname, attr, val, n, upper in clamps:
+        if (cname, fname, attr) in seenc or not upper:
+            continue
+        seenc.add((cname, fname, attr))
+        tabs = [rel for rel in lastages if ('athlons' in rel) == (cname == 'AthlonsAgeGrader') or (fname == 'find_age')]
+        short = [(rel, lastages[rel]) for rel in tabs if val < lastages[rel]]
+        if short:
+            ctx.finding(rule, '%s::%s.%s::age clamped to %s' % (AGE, cname, fname, attr), AGE, n.lineno,
+                        '%s.%s clamps the age to self.%s = %s, but %s runs to age %s: the columns beyond %s are never used and those ages get '
+                        'the factor of age %s' % (cname, fname, attr, val, short[0][0], short[0][1], val, val), 'age %s' % short[0][1])
+        else:
+            ctx.ok(rule, '%s.%s: clamp self.%s = %s is not below the last tabulated age' % (cname, fname, attr, val))
